@@ -16,6 +16,12 @@ structure St where
   cutI : Option Nat := none
   caches : List (String × Cache) := []
   createds : List Nat := []             -- spec side: creation seconds of all writers so far
+  pid : Bool := false                   -- file names carry `.pid<pid>` (printed as `.pidN`)
+  touched : List (String × Bool) := []  -- foreign directory entries (name, is a directory): no part of the log
+  rawD : Bytes := []                    -- garbage appended to the last data / idx file after the writer died
+  rawI : Bytes := []
+  raw : Bool := false                   -- … happened: outside the property (corruption other than truncation), the spec says `?`
+  idxGone : Bool := false               -- the last idx file was removed (searched like an empty one)
 
 def strBytes (s : String) : Bytes := s.toUTF8.toList.map (·.toNat)
 
@@ -59,6 +65,20 @@ def showItems (xs : List Item) : String := showList (xs.map showItem)
 
 def fileName (n : Name) : String :=
   "app-metrics.log." ++ bytesStr (dateStr n.1) ++ (if n.2 = 0 then "" else "." ++ toString n.2)
+
+/-- C17's own cases run with app name `v.app` (the dot becomes `-`) and optionally with the pid suffix -/
+def fileNameC (pid : Bool) (n : Name) : String :=
+  "v-app-metrics.log" ++ (if pid then ".pidN" else "") ++ "." ++ bytesStr (dateStr n.1) ++ (if n.2 = 0 then "" else "." ++ toString n.2)
+
+def hexVal (c : Char) : Option Nat :=
+  if '0' ≤ c ∧ c ≤ '9' then some (c.toNat - 48) else if 'a' ≤ c ∧ c ≤ 'f' then some (c.toNat - 87) else none
+
+def parseHexBytes : List Char → Option Bytes
+  | [] => some []
+  | a :: b :: r => match hexVal a, hexVal b, parseHexBytes r with
+    | some x, some y, some t => some ((x * 16 + y) :: t)
+    | _, _, _ => none
+  | _ => none
 
 def getCache (s : St) (sid : String) : Cache :=
   match s.caches.find? (·.1 == sid) with
@@ -130,7 +150,15 @@ def applyCuts (s : St) (w : Writer) : Writer :=
   let fs := modLast w.files fun f => { f with data := s.origData, idx := s.origIdx }
   let fs := match s.cutD with | some k => cutData fs k | none => fs
   let fs := match s.cutI with | some k => cutIdx fs k | none => fs
+  let fs := modLast fs fun f => { f with data := f.data ++ s.rawD, idx := f.idx ++ s.rawI }
   { w with files := fs }
+
+/-- the writer dies: remember what the last files held -/
+def die (s : St) (w : Writer) : St :=
+  if s.closed then s else
+    match w.files.getLast? with
+    | some f => { s with closed := true, origData := f.data, origIdx := f.idx }
+    | none => s
 
 def insertSorted (x : String × Nat) : List (String × Nat) → List (String × Nat)
   | [] => [x]
@@ -142,10 +170,11 @@ def step (spec : Bool) (s : St) (ts : List String) (_ : String) : St × Option S
       | some t => ({ s with now := t }, none)
       | none => (s, some "bad-op")
   | ["log.end"] => ({ now := s.now }, none)
-  | ["log.new", a, b] => match a.toNat?, b.toNat? with
+  | "log.new" :: a :: b :: opt => match a.toNat?, b.toNat? with
       | some a, some b =>
-        if a = 0 ∨ b = 0 then ({ s with w := none }, some "err")
-        else ({ now := s.now, w := some (Writer.new s.now a b), createds := [s.now / 1000] }, some "ok")
+        if opt != [] ∧ opt != ["pid"] then (s, some "bad-op")
+        else if a = 0 ∨ b = 0 then ({ now := s.now }, some "err")
+        else ({ now := s.now, w := some (Writer.new s.now a b), createds := [s.now / 1000], pid := opt == ["pid"] }, some "ok")
       | _, _ => (s, some "bad-op")
   | ["log.reopen", a, b] => match s.w, a.toNat?, b.toNat? with
       | some w, some a, some b =>
@@ -165,23 +194,49 @@ def step (spec : Bool) (s : St) (ts : List String) (_ : String) : St × Option S
       | _, _, _, _ => (s, some "bad-op")
   | ["log.cut", which, k] => match s.w, k.toNat? with
       | some w, some k =>
-        let s := if s.closed then s else
-          match w.files.getLast? with
-          | some f => { s with closed := true, origData := f.data, origIdx := f.idx }
-          | none => s
+        let s := die s w
         if which == "data" then
-          let s := { s with cutD := some k }
+          let s := { s with cutD := some k, rawD := [] }
           ({ s with w := some (applyCuts s w) }, none)
         else if which == "idx" then
-          let s := { s with cutI := some k }
+          let s := { s with cutI := some k, rawI := [], idxGone := false }
           ({ s with w := some (applyCuts s w) }, none)
         else (s, some "bad-op")
       | _, _ => (s, some "bad-op")
+  | ["log.raw", which, hex] => match s.w, parseHexBytes hex.toList with
+      | some w, some bs =>
+        let s := { die s w with raw := true }
+        if which == "data" then
+          let s := { s with rawD := s.rawD ++ bs }
+          ({ s with w := some (applyCuts s w) }, none)
+        else if which == "idx" then
+          if s.idxGone then (s, some "bad-op") else
+          let s := { s with rawI := s.rawI ++ bs }
+          ({ s with w := some (applyCuts s w) }, none)
+        else (s, some "bad-op")
+      | _, _ => (s, some "bad-op")
+  | ["log.rmidx"] => match s.w with
+      | some w =>
+        -- a crash between the creation of the data file and of its index: searched like an empty index
+        let s := { die s w with cutI := some 0, rawI := [], idxGone := true }
+        ({ s with w := some (applyCuts s w) }, none)
+      | none => (s, some "bad-op")
+  | ["log.touch", nm] => match s.w with
+      | some _ => ({ s with touched := (nm, false) :: s.touched.filter (·.1 != nm) }, none)
+      | none => (s, some "bad-op")
+  | ["log.mkdir", nm] => match s.w with
+      | some _ => ({ s with touched := (nm, true) :: s.touched.filter (·.1 != nm) }, none)
+      | none => (s, some "bad-op")
+  | ["log.badsearcher"] => (s, some "err err")
   | ["log.files"] => match s.w with
       | some w =>
-        let xs := w.files.foldl (fun acc f =>
-          insertSorted (fileName f.name, f.data.length) (insertSorted (fileName f.name ++ ".idx", f.idx.length) acc)) []
-        (s, some (showList (xs.map fun p => s!"{p.1}:{p.2}")))
+        let n := w.files.length
+        let xs := w.files.zipIdx.foldl (fun acc (f, i) =>
+          let acc := if s.idxGone && i + 1 == n then acc else insertSorted (fileNameC s.pid f.name ++ ".idx", f.idx.length) acc
+          insertSorted (fileNameC s.pid f.name, f.data.length) acc) []
+        let xs := s.touched.foldl (fun acc t => insertSorted (t.1, 0) acc) xs
+        (s, some (showList (xs.map fun p =>
+          if s.touched.any (fun t => t.1 == p.1 && t.2) then s!"{p.1}/:0" else s!"{p.1}:{p.2}")))
       | none => (s, some "bad-op")
   | ["log.find", sid, b, e, r] => match s.w, b.toNat?, e.toNat? with
       | some w, some b, some e =>
@@ -189,7 +244,8 @@ def step (spec : Bool) (s : St) (ts : List String) (_ : String) : St × Option S
         let c := getCache s sid
         let (c', xs) := find w.files c b e res
         let s' := setCache s sid c'
-        if spec then
+        if spec && s.raw then (s', some "?")
+        else if spec then
           (s', some (specAnswer s w c b (fun v => specFind v.perFile.flatten b e res)
                       (fun it => inRange b e it && resMatch res it)))
         else (s', some (showItems xs))
@@ -199,7 +255,8 @@ def step (spec : Bool) (s : St) (ts : List String) (_ : String) : St × Option S
         let c := getCache s sid
         let (c', xs) := findFrom w.files c b m
         let s' := setCache s sid c'
-        if spec then
+        if spec && s.raw then (s', some "?")
+        else if spec then
           (s', some (specAnswer s w c b (fun v => specFrom v.perFile b m)
                       (fun it => decide (b / 1000 ≤ it.ts / 1000))))
         else (s', some (showItems xs))
